@@ -87,42 +87,45 @@ func devCmd(args []string) {
 	}
 	fmt.Printf("loaded in %.1fs; %d contracts\n", time.Since(t0).Seconds(), len(s.e.contracts))
 	for _, c := range s.contractsSorted() {
-		if c.Inline && len(c.Ensures) == 0 {
+		if c.Callback || (c.Inline && len(c.Ensures)+len(c.Requires) == 0 && len(c.Modifies) == 0) {
 			continue
 		}
 		if *fnFilter != "" && !strings.Contains(c.Key, *fnFilter) {
 			continue
 		}
-		t1 := time.Now()
-		r := s.e.verifyFunction(c, s.init)
-		fmt.Printf("== %s: %d obligations, %.2fs exec", r.Fn, len(r.Obls), time.Since(t1).Seconds())
-		if r.Err != "" {
-			fmt.Printf("  ERROR: %s", r.Err)
-		}
-		fmt.Println()
-		for k, n := range r.Unmod {
-			fmt.Printf("   unmodelled: %s x%d\n", k, n)
-		}
-		for k := range r.Notes {
-			fmt.Printf("   note: %s\n", k)
-		}
-		staticDischarge(r.Obls)
-		if *solve {
-			dir := "/tmp/gvc-dev"
-			s.e.solveObligations(r.Obls, r.Axioms, r.Assumes, r.AssumePCs, dir, *timeout, 6, false)
-		}
-		for _, o := range r.Obls {
-			fmt.Printf("   %-8s %-7s %5.2fs %6d  %s\n", o.Status, o.Solver, o.Time, o.SMTLen, o.ID)
-			if *show {
-				p := newPrinter()
-				p.count(o.Goal)
-				fmt.Printf("      goal: %s\n", p.expr(o.Goal))
-				for _, d := range p.defs {
-					fmt.Printf("        %s\n", d)
-				}
+		for _, r := range s.e.verifyFunctionCases(c, s.init) {
+			t1 := time.Now()
+			fmt.Printf("== %s: %d obligations, %.2fs exec", r.Fn, len(r.Obls), time.Since(t1).Seconds())
+			if r.Err != "" {
+				fmt.Printf("  ERROR: %s", r.Err)
 			}
-			if *solve && o.Status != "unsat" && o.Status != "static" && !o.Cover {
-				fmt.Printf("      file: %s\n", o.smtFile)
+			fmt.Println()
+			for k, n := range r.Unmod {
+				fmt.Printf("   unmodelled: %s x%d\n", k, n)
+			}
+			for k := range r.Notes {
+				fmt.Printf("   note: %s\n", k)
+			}
+			staticDischarge(r.Obls)
+			if *solve {
+				dir := "/tmp/gvc-dev"
+				s.e.solveObligations(r.Obls, r.Axioms, r.Assumes, r.AssumePCs, dir, *timeout, 6, false)
+			}
+			for _, o := range r.Obls {
+				fmt.Printf("   %-8s %-7s %5.2fs %6d  %s\n", o.Status, o.Solver, o.Time, o.SMTLen, o.ID)
+				if *show {
+					p := newPrinter()
+					p.count(o.Goal)
+					p.count(o.PC)
+					fmt.Printf("      pc: %s\n", p.expr(o.PC))
+					fmt.Printf("      goal: %s\n", p.expr(o.Goal))
+					for _, d := range p.defs {
+						fmt.Printf("        %s\n", d)
+					}
+				}
+				if *solve && o.Status != "unsat" && o.Status != "static" && !o.Cover {
+					fmt.Printf("      file: %s\n", o.smtFile)
+				}
 			}
 		}
 	}
